@@ -196,7 +196,7 @@ def constrained(draw, lax_ok=False, origins=None, with_args=False):
         if fam == "enum":
             vals = draw(st.lists(st.integers(-3, 3), min_size=1, max_size=3, unique=True))
             if o == "int":
-                c = {"enum": vals}
+                c = {"enum": draw(st.sampled_from([vals, vals, vals, {"enumcls": "Num"}, {"enumcls": "Plain"}]))}
             elif o == "float":
                 c = {"enum": [{"t": "float", "v": repr(float(x))} for x in vals]}
             else:
@@ -220,7 +220,7 @@ def constrained(draw, lax_ok=False, origins=None, with_args=False):
         if fam == "enum":
             if o == "str":
                 c = {"enum": draw(st.one_of(st.lists(st.sampled_from(["a", "b", "", "red", "1"]), min_size=1, max_size=3, unique=True),
-                                            st.just({"enumcls": "Color"})))}
+                                            st.just({"enumcls": "Color"}), st.just({"enumcls": "Plain"})))}
             else:
                 c = {"enum": [{"t": "bytes", "v": h} for h in draw(st.lists(st.sampled_from(["61", "62", ""]), min_size=1, max_size=2, unique=True))]}
     elif o in ("list", "tuple", "set", "dict"):
@@ -539,6 +539,10 @@ def boundary_values(spec):
                 out.append(bool(cv))
     if "enum" in c and isinstance(c["enum"], list):
         out += list(c["enum"])
+    if "enum" in c and isinstance(c["enum"], dict) and "enumcls" in c["enum"]:
+        # member values, members, member names and strangers of an Enum-class range
+        e = codec.ENUMS[c["enum"]["enumcls"]]
+        out += [codec.encode(m.value) for m in e] + [{"t": "enum", "e": c["enum"]["enumcls"], "m": m.name} for m in e] + [m.name for m in e] + [5, "zz"]
     if c.get("unique_items"):
         out += [{"t": "list", "v": [1, 1]}, {"t": "list", "v": [1, True]}, {"t": "list", "v": [1, {"t": "float", "v": "1.0"}]},
                 {"t": "list", "v": [{"t": "float", "v": "nan"}, {"t": "float", "v": "nan"}]}, {"t": "list", "v": [1, 2, 3]},
